@@ -122,7 +122,7 @@ func AddressedPaths(op Operation) (addressedPaths [][]string) {
 			case *opFilter:
 				for _, logOp := range vv.LogicalOperation.Operations {
 					for _, val := range AddressedPaths(logOp) {
-						addressedPaths = append(addressedPaths, append(idents, val...))
+						addressedPaths = append(addressedPaths, append(append([]string{}, idents...), val...))
 					}
 				}
 
